@@ -383,6 +383,9 @@ class Configuration(BaseConfig, Immutable):
         Returns:
             New instance with updated parameter values.
         """
+        cosmology = (
+            self.cosmology if cosmology is NotSet else parse_cosmology(cosmology)
+        )
         scales = self.scales.modify(
             rmin=rmin, rmax=rmax, unit=unit, rweight=rweight, resolution=resolution
         )
@@ -397,9 +400,6 @@ class Configuration(BaseConfig, Immutable):
             cosmology=cosmology,
         )
 
-        cosmology = (
-            self.cosmology if cosmology is NotSet else parse_cosmology(cosmology)
-        )
         max_workers = self.max_workers if max_workers is NotSet else max_workers
 
         return type(self)(
